@@ -15,20 +15,18 @@ H_ENTRY(h_subpacket_decode) {
   tmcg_openpgp_packet_ctx_t ctx;
   memset(&ctx, 0, sizeof(ctx));
   size_t before = in.size();
-  tmcg_openpgp_byte_t r = PGP::SubpacketDecode(in, 0, ctx);
-  vf_assert(!vf_uncaught() || vf_uncaught_kind() == 1, "only standard exceptions may leave SubpacketDecode");
-  if (!vf_uncaught() && r != 0) vf_assert(in.size() < before, "a decoded subpacket is consumed from the input");
-  vf_clear_uncaught();
+  tmcg_openpgp_byte_t r = 0; H_TRY(r = PGP::SubpacketDecode(in, 0, ctx));
+  vf_assert(vfh_exc == 0 || vfh_exc == 1, "only standard exceptions may leave SubpacketDecode");
+  if (vfh_exc == 0 && r != 0) vf_assert(in.size() < before, "a decoded subpacket is consumed from the input");
   H_END();
 }
 
 H_ENTRY(h_body_extract) {
   tmcg_openpgp_octets_t in, out;
   vfh_bytes(in, H_MAXLEN);
-  tmcg_openpgp_byte_t r = PGP::PacketBodyExtract(in, 0, out);
-  vf_assert(!vf_uncaught() || vf_uncaught_kind() == 1, "only standard exceptions may leave PacketBodyExtract");
-  if (!vf_uncaught() && r != 0) vf_assert(out.size() <= in.size(), "extracted body is not longer than the input");
-  vf_clear_uncaught();
+  tmcg_openpgp_byte_t r = 0; H_TRY(r = PGP::PacketBodyExtract(in, 0, out));
+  vf_assert(vfh_exc == 0 || vfh_exc == 1, "only standard exceptions may leave PacketBodyExtract");
+  if (vfh_exc == 0 && r != 0) vf_assert(out.size() <= in.size(), "extracted body is not longer than the input");
   H_END();
 }
 
@@ -36,10 +34,9 @@ H_ENTRY(h_string_decode) {
   tmcg_openpgp_octets_t in;
   vfh_bytes(in, H_MAXLEN);
   std::string out;
-  size_t r = PGP::PacketStringDecode(in, out);
-  vf_assert(!vf_uncaught() || vf_uncaught_kind() == 1, "only standard exceptions may leave PacketStringDecode");
-  if (!vf_uncaught()) vf_assert(r <= in.size(), "consumed length is within the input");
-  vf_clear_uncaught();
+  size_t r = 0; H_TRY(r = PGP::PacketStringDecode(in, out));
+  vf_assert(vfh_exc == 0 || vfh_exc == 1, "only standard exceptions may leave PacketStringDecode");
+  if (vfh_exc == 0) vf_assert(r <= in.size(), "consumed length is within the input");
   H_END();
 }
 
@@ -48,9 +45,8 @@ H_ENTRY(h_radix64_decode) {
   std::string s;
   for (size_t i = 0; i < n; ++i) s += (char)vf_nondet_u8();
   tmcg_openpgp_octets_t out;
-  PGP::Radix64Decode(s, out);
-  vf_assert(!vf_uncaught() || vf_uncaught_kind() == 1, "only standard exceptions may leave Radix64Decode");
-  if (!vf_uncaught()) vf_assert(out.size() <= 3 * ((n + 3) / 4), "decoded size bounded by input size");
-  vf_clear_uncaught();
+  H_TRY(PGP::Radix64Decode(s, out));
+  vf_assert(vfh_exc == 0 || vfh_exc == 1, "only standard exceptions may leave Radix64Decode");
+  if (vfh_exc == 0) vf_assert(out.size() <= 3 * ((n + 3) / 4), "decoded size bounded by input size");
   H_END();
 }
